@@ -202,6 +202,8 @@ class _TwinType(metaclass=_TwinTypeMeta):
                 return symnp.float64
             if isinstance(x, SC.SymBool):
                 return bool
+            if type(x) is float:
+                return _TwinFloat          # so that `type(x) is float` holds inside twin modules, where the name float is bound to _TwinFloat
             return type(x)
         return type(*args, **kw)
 
